@@ -1122,6 +1122,8 @@ void Preprocessor::dump(std::ostream &out) const
 std::size_t Preprocessor::calculateHash(const std::string &toolinfo) const
 {
     std::string hashData = toolinfo;
+    // the enforced or detected language has an effect on the results
+    hashData += (mLang == Standards::Language::CPP) ? "c++" : "c";
     for (const simplecpp::Token *tok = mTokens.cfront(); tok; tok = tok->next) {
         if (!tok->comment) {
             hashData += tok->str();
